@@ -2,7 +2,7 @@
 From Coq Require Import Strings.String.
 From Coq Require Import List Bool NArith ZArith QArith_base Lia.
 From DV Require Import Common.Res Common.Str Common.PyNum Generated.T_extract Extract.Model Extract.ProofsStr Extract.Spec
-  Extract.ProofsDict Extract.ProofsLoop Extract.ProofsInj Extract.ProofsMain.
+  Extract.ProofsDict Extract.ProofsLoop Extract.ProofsInj Extract.ProofsMain Extract.ProofsMore Extract.Decl Extract.ProofsDecl.
 Import ListNotations.
 Local Open Scope N_scope.
 
@@ -154,3 +154,34 @@ Proof.
   split; [left; reflexivity|].
   vm_compute. intros H. discriminate H.
 Qed.
+
+(** * Witnesses for the declarative reading, JSON, fuel *)
+Lemma ex_names_wf : names_wf ex_ds = true /\ names_wf clash_ds = true /\ names_wf f12_ds = true.
+Proof. repeat split; vm_compute; reflexivity. Qed.
+
+Lemma ex_expected_keys : d_expected_keys ex_cfg ex_ds = map fst ex_result.
+Proof. vm_compute. reflexivity. Qed.
+
+Lemma clash_expected_keys : d_expected_keys clash_cfg clash_ds =
+  [lit "Modality_0X8_0X60"; lit "PrivateCreator"; lit "FooBar_0X29_0X1001"; lit "FooBar_0X29_0X1002"; lit "Modality_0X29_0X1003"].
+Proof. vm_compute. reflexivity. Qed.
+
+Lemma ex_d_kinds : d_kinds ex_cfg [] ex_ds = kinds_from ex_cfg [] ex_ds.
+Proof. vm_compute. reflexivity. Qed.
+
+Lemma ex_cfg_metas_json : metas_json ex_cfg.
+Proof.
+  intros t e meta [<- | []] H. unfold acme, tag_fun in H. simpl in H. injection H as <-. reflexivity.
+Qed.
+
+Lemma ex_inputs_json : inputs_json ex_cfg ex_ds = true /\ dict_json ex_result = true.
+Proof. split; vm_compute; reflexivity. Qed.
+
+Lemma ex_depth : ds_depth ex_ds = 1%nat.
+Proof. vm_compute. reflexivity. Qed.
+
+(** with private extraction enabled the untranslated private element (0029,1002) appears *)
+Lemma clash_private_appears :
+  exists st, run 2 clash_cfg clash_ds = Ok st /\
+    In (lit "FooBar", VStr CStr (lit "b"), (0x0029, 0x1002)) (s_std st).
+Proof. eexists. split; [vm_compute; reflexivity | vm_compute; tauto]. Qed.
